@@ -576,13 +576,14 @@ def generate(prop, seed, tier="quick", fault_free=False):
     if not fault_free and x.random() < 0.05:
         at = x.randrange(len(ops) + 1)
         ops = ops[:at] + [{"op": "warm", "k": x.choice([100, 300, 300, 700]), "distinct": True}] + ops[at:]
-    if not fault_free and x.random() < 0.3 and not config["reuse_instance"]:
+    if not fault_free and x.random() < 0.45 and not config["reuse_instance"]:
         # threads: two or three queries are simplified at the same time by threads of one
         # process; after which LINE of the library another thread runs is the simulator's choice
         helpers2 = []
         at = x.randrange(len(ops) + 1)
         ops = ops[:at] + [{"op": "serve_mt", "p": x.choice([0.02, 0.1, 0.3]), "seed": x.randrange(10 ** 6),
-                           "qs": [gen_query(x, names, reuse, helpers2) for _ in range(x.randint(2, 3))]}] + ops[at:]
+                           "qs": [gen_query(x, names, reuse, helpers2) for _ in range(x.randint(2, 3))],
+                           "opcodes": x.random() < 0.5}] + ops[at:]
     if not fault_free:
         # object lifetime: queries die after they were served; inside the package `id()` hands
         # the numbers of dead objects to new ones (sim/simid.py)
@@ -933,6 +934,13 @@ class Node:
                 asts = [parse_query(q) for q in op["qs"]]
                 refs = [self.refs_for(q) for q in op["qs"]]
                 pr = Preempt(random.Random(op["seed"]), op["p"], func_adl_src().rstrip("/") + "/func_adl/")
+                if op.get("opcodes"):
+                    # bytecode granularity, race-directed: a thread about to write a module
+                    # global is parked there while the others go on (sim/preempt.py)
+                    pr.opcodes = True
+                    pr.p = op["p"] / 60.0
+                    pr.directed = 0.005
+                    pr.max_switches = 6000
                 with _roomy_stack():
                     res = pr.run([(lambda a=a: simplify(self.mod, a)) for a in asts])
                 self.stat("fault_threads_inside_the_library")
